@@ -200,6 +200,8 @@ class Lexer:
         pos = 0
         line = 1
         column = 0
+        startline = 1
+        startcol = 1
         updatepos = True
         while pos < len(self.script):
             ch = self.script[pos]
@@ -213,6 +215,9 @@ class Lexer:
             updatepos = True
 
             if state == 0:  # Eat whitespace
+                # remember where the token that may start here begins
+                startline = line
+                startcol = column
                 if ch == "#":
                     state = 9
                 elif ch in "+-*%":
@@ -242,19 +247,19 @@ class Lexer:
             elif state == 1:  # normal token
                 if ch in "()+-*/%[]<>=,;!\"' \t\r\n#":
                     if token == "TRUE":
-                        here = SourcePos(fname, line, column - len("TRUE"))
+                        here = SourcePos(fname, startline, startcol)
                         self.tokens.append(Token("TRUE", "boolean", here))
                         token = ""
                     elif token == "FALSE":
-                        here = SourcePos(fname, line, column - len("TRUE"))
+                        here = SourcePos(fname, startline, startcol)
                         self.tokens.append(Token("FALSE", "boolean", here))
                         token = ""
                     elif token in KEYWORDS:
-                        here = SourcePos(fname, line, column - len(token))
+                        here = SourcePos(fname, startline, startcol)
                         self.tokens.append(Token(token, "keyword", here))
                         token = ""
                     elif token:
-                        here = SourcePos(fname, line, column - len(token))
+                        here = SourcePos(fname, startline, startcol)
                         self.tokens.append(Token(token, "identifier", here))
                         token = ""
                     pos -= 1
@@ -263,7 +268,7 @@ class Lexer:
                 else:
                     token += ch
                     if token == "...":
-                        here = SourcePos(fname, line, column - len(token))
+                        here = SourcePos(fname, startline, startcol)
                         self.tokens.append(Token(token, "interpunction", here))
                         token = ""
                         state = 0
@@ -271,18 +276,18 @@ class Lexer:
             elif state == 2:  # <>, <=, >=, ==, <<, >>, <<<, >>>, !>, <*, *>
                 if ch == "=":
                     token += ch
-                    here = SourcePos(fname, line, column - len(token) - 1)
+                    here = SourcePos(fname, startline, startcol)
                     self.tokens.append(Token(token, "operator", here))
                     token = ""
                     state = 0
                 elif ch == ">" and token == "=":
                     token += ch
-                    here = SourcePos(fname, line, column - len(token) - 1)
+                    here = SourcePos(fname, startline, startcol)
                     self.tokens.append(Token(token, "interpunction", here))
                     token = ""
                     state = 0
                 elif ch == ">" and token == "<":
-                    here = SourcePos(fname, line, column - 1)
+                    here = SourcePos(fname, startline, startcol)
                     self.tokens.append(Token("<>", "operator", here))
                     token = ""
                     state = 0
@@ -294,17 +299,17 @@ class Lexer:
                     state = 21
                 elif ch == ">" and token == "!":
                     token += ch
-                    here = SourcePos(fname, line, column - len(token) - 1)
+                    here = SourcePos(fname, startline, startcol)
                     self.tokens.append(Token("!>", "operator", here))
                     token = ""
                     state = 0
                 elif ch == "*" and token == "<":
-                    here = SourcePos(fname, line, column - 1)
+                    here = SourcePos(fname, startline, startcol)
                     self.tokens.append(Token("<*", "interpunction", here))
                     token = ""
                     state = 0
                 else:
-                    here = SourcePos(fname, line, column - len(token))
+                    here = SourcePos(fname, startline, startcol)
                     self.tokens.append(Token(token, "operator", here))
                     token = ""
                     pos -= 1
@@ -313,17 +318,17 @@ class Lexer:
 
             elif state == 21:  # <<, >>, <<<, >>>
                 if ch == "<" and token == "<<":
-                    here = SourcePos(fname, line, column - 3)
+                    here = SourcePos(fname, startline, startcol)
                     self.tokens.append(Token("<<<", "interpunction", here))
                     token = ""
                     state = 0
                 elif ch == ">" and token == ">>":
-                    here = SourcePos(fname, line, column - 3)
+                    here = SourcePos(fname, startline, startcol)
                     self.tokens.append(Token(">>>", "interpunction", here))
                     token = ""
                     state = 0
                 else:
-                    here = SourcePos(fname, line, column - len(token))
+                    here = SourcePos(fname, startline, startcol)
                     self.tokens.append(Token(token, "interpunction", here))
                     token = ""
                     pos -= 1
@@ -332,7 +337,7 @@ class Lexer:
 
             elif state == 3:  # double quotes
                 if ch == '"':
-                    here = SourcePos(fname, line, column - len(token) - 2 + 1)
+                    here = SourcePos(fname, startline, startcol)
                     self.tokens.append(Token(token, "string", here))
                     token = ""
                     state = 0
@@ -369,7 +374,7 @@ class Lexer:
 
             elif state == 4:  # single quote
                 if ch == "'":
-                    here = SourcePos(fname, line, column - len(token) - 2 + 1)
+                    here = SourcePos(fname, startline, startcol)
                     self.tokens.append(Token(token, "string", here))
                     token = ""
                     state = 0
@@ -409,11 +414,11 @@ class Lexer:
                     token += "//"
                     state = 6
                 elif ch == "=":
-                    here = SourcePos(fname, line, column - 1)
+                    here = SourcePos(fname, startline, startcol)
                     self.tokens.append(Token("/=", "operator", here))
                     state = 0
                 else:
-                    here = SourcePos(fname, line, column - 1)
+                    here = SourcePos(fname, startline, startcol)
                     self.tokens.append(Token("/", "operator", here))
                     pos -= 1
                     updatepos = False
@@ -422,7 +427,7 @@ class Lexer:
             elif state == 6:  # pattern
                 token += ch
                 if token.endswith("//"):
-                    here = SourcePos(fname, line, column - len(token) - 4 + 1)
+                    here = SourcePos(fname, startline, startcol)
                     self.tokens.append(Token(token, "pattern", here))
                     token = ""
                     state = 0
@@ -434,7 +439,7 @@ class Lexer:
                 elif ch in "0123456789_":
                     token += ch
                 elif ch in "()[]<>=! \t\n\r+-*/%,;#":
-                    here = SourcePos(fname, line, column - len(token))
+                    here = SourcePos(fname, startline, startcol)
                     token = token.replace("_", "")
                     self.tokens.append(Token(token, "int", here))
                     token = ""
@@ -462,7 +467,7 @@ class Lexer:
                 if ch in "0123456789abcdefABCDEF_":
                     token += ch
                 elif ch in "()[]<>=! \t\n\r+-*/%,;#":
-                    here = SourcePos(fname, line, column - len(token))
+                    here = SourcePos(fname, startline, startcol)
                     if not token.replace("_", ""):
                         raise CklSyntaxError("Invalid hex literal", here)
                     token = str(int(token.replace("_", ""), 16))
@@ -479,7 +484,7 @@ class Lexer:
                 if ch in "01_":
                     token += ch
                 elif ch in "()[]<>=! \t\n\r+-*/%,;#":
-                    here = SourcePos(fname, line, column - len(token))
+                    here = SourcePos(fname, startline, startcol)
                     if not token.replace("_", ""):
                         raise CklSyntaxError("Invalid binary literal", here)
                     self.tokens.append(
@@ -497,7 +502,7 @@ class Lexer:
                 if ch in "0123456789_":
                     token += ch
                 elif ch in "()[]<>=! \t\n\r+-*/%,;#":
-                    here = SourcePos(fname, line, column - len(token))
+                    here = SourcePos(fname, startline, startcol)
                     token = token.replace("_", "")
                     self.tokens.append(Token(token, "decimal", here))
                     token = ""
@@ -515,22 +520,22 @@ class Lexer:
             elif state == 10:  # potentially composite assign or -> or *>
                 if ch == "=":
                     token += ch
-                    here = SourcePos(fname, line, column)
+                    here = SourcePos(fname, startline, startcol)
                     self.tokens.append(Token(token, "operator", here))
                     token = ""
                     state = 0
                 elif token == "-" and ch == ">":
-                    here = SourcePos(fname, line, column)
+                    here = SourcePos(fname, startline, startcol)
                     self.tokens.append(Token("->", "operator", here))
                     token = ""
                     state = 0
                 elif token == "*" and ch == ">":
-                    here = SourcePos(fname, line, column)
+                    here = SourcePos(fname, startline, startcol)
                     self.tokens.append(Token("*>", "interpunction", here))
                     token = ""
                     state = 0
                 else:
-                    here = SourcePos(fname, line, column)
+                    here = SourcePos(fname, startline, startcol)
                     self.tokens.append(Token(token, "operator", here))
                     token = ""
                     pos -= 1
